@@ -199,7 +199,10 @@ def replayTok (c : Casc) (s : State) (tok : String) : Except String State := do
   let phaseOf (m : Nat) : Option Phase := (s.mons[m]?).map (·.phase)
   match kind, a with
   | 'W', _ => stepE s .register
-  | 'R', _ => stepE s .waitReturns
+  | 'R', [n] => do
+    let s' ← stepE s .waitReturns
+    chk (n == (allErrors s').length) s!"AllErrors after the return: model {(allErrors s').length} entries, code {n}"
+    pure s'
   | 'P', _ => stepE s .post
   | 'D', _ => stepE s .dropQueue
   | 'O', _ =>
